@@ -144,12 +144,14 @@ func (s *Segment) dictionary(field string) (rv *Dictionary, err error) {
 				var vellumLenData []byte
 				vellumLenData, err = s.data.Read(int(dictStart), int(dictStart+binary.MaxVarintLen64))
 				if err != nil {
+					s.m.Unlock()
 					return nil, err
 				}
 				vellumLen, read := binary.Uvarint(vellumLenData)
 				var fstBytes []byte
 				fstBytes, err = s.data.Read(int(dictStart+uint64(read)), int(dictStart+uint64(read)+vellumLen))
 				if err != nil {
+					s.m.Unlock()
 					return nil, err
 				}
 				rv.fst, err = vellum.Load(fstBytes)
